@@ -455,6 +455,7 @@ def assertion_divisor_rule(ck, prog):
             (isinstance(e, tuple) and any(isinstance(x, tuple) and any(mentions(y, pred) for y in x if isinstance(y, tuple)) for x in e[1:] if isinstance(x, tuple) and x and isinstance(x[0], tuple)))
 
     n_pairs = 0
+    terms = []   # (block, index, degree expr, constant expr, block that decides the constant)
     for b, i, st in f.assigns():
         rv = st["rv"]
         if not (rv["k"] == "agg" and rv.get("agg") == "tuple" and len(rv["ops"]) == 2):
@@ -462,7 +463,21 @@ def assertion_divisor_rule(ck, prog):
         ty = f.local_ty(st["lhs"]["l"]) if "lhs" in st and isinstance(st["lhs"], dict) and "l" in st["lhs"] else ""
         if not ty.replace(" ", "").startswith("(usize,"):
             continue
-        deg, c = expr_at(f, rv["ops"][0]), strip_conv(expr_at(f, rv["ops"][1]))
+        deg = expr_at(f, rv["ops"][0])
+        c = strip_conv(expr_at(f, rv["ops"][1]))
+        if c[0] == "local" and c[1] in f.defs and len(f.defs[c[1]]) > 1:
+            # one tuple whose constant is chosen by a branch (`let offset = if first_step != 0 { g^.. } else { ONE }`): one term per definition
+            for db, di, dst in f.defs[c[1]]:
+                if di == "T":
+                    ce = ("call", callee_name(dst) or "?", tuple(expr_at(f, a) for a in dst["args"]), db)
+                elif dst["rv"]["k"] in ("use", "cast"):
+                    ce = expr_at(f, dst["rv"]["a"])
+                else:
+                    ce = ("?",)
+                terms.append((b, i, deg, strip_conv(ce), db))
+        else:
+            terms.append((b, i, deg, c, b))
+    for b, i, deg, c, cb in terms:
         n_pairs += 1
         inst = "one" if c[0] == "k" else "offset"
         # degree
@@ -478,7 +493,7 @@ def assertion_divisor_rule(ck, prog):
             if not str(c[1]).endswith("::ONE"):
                 ck.ob("ADIV", f"from_assertion:{inst}:constant", False, "a constant numerator offset is the field's ONE", loc=f.loc(b, i), detail={"constant": repr(c)})
                 continue
-            ok = _behind_zero_test(f, b, first_step)
+            ok = _behind_zero_test(f, cb, first_step)
             if ok is None:
                 ck.note("ADIV: the branch that uses ONE as the offset is not behind a recognisable comparison; not decided")
             else:
